@@ -212,6 +212,19 @@ example :
         [some (.smap (.par (.cat (.cat (.lit 5) (.lit 6)) (.lit 7))) (.named .data0))])
       (.call .dot [])) = .ok [.int 7, .int 6, .int 5] := by decide
 
+/-- static partial applications bind their fixed arguments where they are evaluated (test on
+literals; the general statement is `closure_eq_spec_partial`, whose specification evaluates the fixed
+arguments of `name(?, v, …)` at creation): `for $f in ((1,2) ! insert-before(?, 1, .)) return $f(7)` =
+`(1,7,2,7)` and `for $f in ((1,2,3) ! remove(?, position())) return $f((10,20,30))` =
+`(20,30,10,30,10,20)`, model (reference tree + repair F16n, no flag) and specification -/
+example :
+    implEval Cfg.fixed 20 (.forE 0 (.par (.smap (.par (.cat (.lit 1) (.lit 2)))
+        (.spart .insertBefore [none, some (.lit 1), some .dot]))) (.call (.var 0) [some (.lit 7)])) =
+      { result := .ok [.int 1, .int 7, .int 2, .int 7], flags := Flags.none } ∧
+    specEval 20 (.forE 0 (.par (.smap (.par (.cat (.cat (.lit 1) (.lit 2)) (.lit 3)))
+        (.spart .remove [none, some .posE]))) (.call (.var 0) [some (.par (.cat (.cat (.lit 10) (.lit 20)) (.lit 30)))])) =
+      .ok [.int 20, .int 30, .int 10, .int 30, .int 10, .int 20] := by decide
+
 /-! ## higher-order functions -/
 
 /-- `hof_eq_expansion`, part 1 (model = F&O definition): the loops of the implementation
